@@ -282,9 +282,30 @@ func (p *printer) subshell(x *ast.Subshell) {
 		p.newline()
 		p.indent()
 	} else {
+		if p.paren(x.List[0]) {
+			p.space()
+		}
 		p.command(x.List[0])
 	}
 	p.w.WriteByte(')')
+}
+
+// paren reports whether the output of c begins with "(".
+func (p *printer) paren(c ast.Command) bool {
+	switch c := c.(type) {
+	case ast.List:
+		return len(c) != 0 && p.paren(c[0])
+	case *ast.AndOrList:
+		return p.paren(c.Pipeline)
+	case *ast.Pipeline:
+		return c.Bang.IsZero() && p.paren(c.Cmd)
+	case *ast.Cmd:
+		switch c.Expr.(type) {
+		case *ast.Subshell, *ast.ArithEval:
+			return true
+		}
+	}
+	return false
 }
 
 func (p *printer) group(x *ast.Group) {
@@ -637,6 +658,9 @@ func (p *printer) cmdSubst(w *ast.CmdSubst) {
 		p.newline()
 		p.indent()
 	} else {
+		if w.Dollar && p.paren(w.List[0]) {
+			p.space()
+		}
 		p.command(w.List[0])
 	}
 	if w.Dollar {
